@@ -278,7 +278,7 @@ impl Prop for C06 {
     }
 
     fn rule(&self) -> String {
-        "Each run: a seeded well-formed message (reference-encoded wire tree incl. forms the crate never emits, or a crate-encoded model message under seeded hash keys) + seeded payload, delivered by a scripted source as a seeded composition of the stream into chunks with EINTR (blocking) / Pending with inline or deferred wake and spurious polls (async) at chunk boundaries; one of the four front ends (parse / parse_parts x blocking / async). Oracle: source byte counter == offset of the end-of-attributes tag at the instant of return; result == unfragmented parse; payload read back through the returned interface == payload (or the armed boundary error is met first). distinct_nontrivial = distinct hashes of the observed (request size, result) call sequence at the source, among runs where at least one chunk boundary / EINTR / Pending fell strictly inside header+attributes of a message with >= 1 attribute."
+        "Each run: a seeded well-formed message (reference-encoded wire tree incl. forms the crate never emits, or a crate-encoded model message under seeded hash keys) + seeded payload, delivered by a scripted source as a seeded composition of the stream into chunks with EINTR (blocking) / Pending with inline or deferred wake and spurious polls (async) at chunk boundaries; one of the four front ends (parse / parse_parts x blocking / async); after parse_parts the rest is read through reader.into_inner() or reader.into_payload(); after parse() the payload is read through the interface of the same kind or, in a third of those runs, through the other one (blocking parse -> AsyncRead via AllowStdIo on the scripted executor, async parse -> blocking Read over the real block_on bridge). Names, values and payloads include size classes around 4 KiB / 8 KiB / 16 KiB / 64 KiB and the 16-bit limit. Oracle: source byte counter == offset of the end-of-attributes tag at the instant of return; result == unfragmented parse; payload read back through the returned interface == payload (or the armed boundary error is met first). distinct_nontrivial = distinct hashes of the observed (request size, result) call sequence at the source, among runs where at least one chunk boundary / EINTR / Pending fell strictly inside header+attributes of a message with >= 1 attribute."
             .into()
     }
     fn assumptions(&self) -> Vec<String> {
